@@ -145,15 +145,25 @@ func registerAll() {
 	for _, v := range []any{HInt(0), HI8(0), HU16(0), HStr(""), HF32(0), HF64(0), HBool(false),
 		HEmpty{}, HPoint{}, HKey{}, HZArr{}, HList{}, HAnyList{}, HArr{}, HMap{}, HRec{}, HMsg{},
 		HMar{}, HBin{}, HLate{}} {
+		registerOne(v)
+	}
+	for _, v := range flagValues {
+		registerOne(v)
+		flagShorts = append(flagShorts, reflect.TypeOf(v).Name())
+	}
+	for i := range regTypes {
+		regByType[regTypes[i].Type] = &regTypes[i]
+		regByShort[regTypes[i].Short] = &regTypes[i]
+	}
+}
+
+func registerOne(v any) {
+	{
 		if err := edf.RegisterTypeOf(v); err != nil {
 			panic(fmt.Sprintf("register %T: %v", v, err))
 		}
 		t := reflect.TypeOf(v)
 		rt := regType{Short: t.Name(), Type: t, Name: fmt.Sprintf("#%s/%s", t.PkgPath(), t.Name())}
 		regTypes = append(regTypes, rt)
-	}
-	for i := range regTypes {
-		regByType[regTypes[i].Type] = &regTypes[i]
-		regByShort[regTypes[i].Short] = &regTypes[i]
 	}
 }
